@@ -58,6 +58,10 @@ def _sender_options(k: int):
 def enumerate_cases(tier: str):
     if tier == "quick":
         spaces = [("2.1", k, ns, other) for k in (1, 2) for ns in (1, 2) for other in (0,)] + [("2.2", 2, 2, 1)]
+        for version in ("2.0", "2.2"):
+            # every parked key re-sent while the flush is under way (more pending commands than one wake started with)
+            yield {"version": version, "parked": 4, "other_parked": 0, "senders": [[0, True], [1, True], [2, True]]}
+            yield {"version": version, "parked": 3, "other_parked": 1, "senders": [[0, True], [0, True], [3, True]]}
     else:
         spaces = [(v, k, ns, other) for v in ("2.1", "2.2") for k in (1, 2, 3, 4) for ns in (1, 2, 3) for other in (0, 1)]
         spaces = [s for s in spaces if not (s[0] == "2.2" and s[2] == 3 and s[1] > 2)]
@@ -87,6 +91,9 @@ class GatedTransport(env.RecordingTransport):
         self.calls: list[tuple[int, str]] = []  # (tick, line) in call order
         self.clock = [0]
         self.progress = 0
+        self.failed_calls: set[str] = set()
+        self.failed_indices: set[int] = set()
+        self.call_blocked_index: dict[int, int] = {}
 
     def tick(self) -> int:
         self.clock[0] += 1
@@ -97,9 +104,12 @@ class GatedTransport(env.RecordingTransport):
         self.calls.append((self.tick(), decoded_message))
         if self.gating:
             fut = asyncio.get_running_loop().create_future()
+            self.call_blocked_index[len(self.calls) - 1] = len(self.blocked)
             self.blocked.append([decoded_message, fut])
-            await fut
-            self.progress += 1
+            try:
+                await fut
+            finally:
+                self.progress += 1
 
 
 async def _settle(transport: GatedTransport, tasks: list) -> None:
@@ -151,6 +161,8 @@ async def _run_schedule(case: dict, schedule: list[int]) -> tuple[Outcome | None
         key = OTHER_KEY if kref == "other" else NODE1_KEYS[kref]
         specs.append((key, f"s{idx}", buf))
     listener = None
+    faults_left = [int(case.get("faults", 0))]
+    info_faults: list[int] = []
     sender_tasks: dict[int, asyncio.Task] = {}
     factors: list[int] = []
     flags = {"raced": False}
@@ -168,6 +180,8 @@ async def _run_schedule(case: dict, schedule: list[int]) -> tuple[Outcome | None
         for j, (_line, fut) in enumerate(transport.blocked):
             if not fut.done():
                 enabled.append(("release", j))
+                if faults_left[0] > 0:
+                    enabled.append(("fail", j))
         if not enabled:
             break
         choice = schedule[pos] if pos < len(schedule) else 0
@@ -184,6 +198,14 @@ async def _run_schedule(case: dict, schedule: list[int]) -> tuple[Outcome | None
             if flush_blocked and key[0] == 1 and listener is not None and not listener.done():
                 flags["raced"] = True
             sender_tasks[arg] = asyncio.ensure_future(do_send(key, value, buf))
+        elif kind == "fail":
+            faults_left[0] -= 1
+            info_faults.append(arg)
+            from aiomysensors.exceptions import TransportFailedError
+
+            transport.blocked[arg][1].set_exception(TransportFailedError("injected write fault"))
+            transport.failed_calls.add(transport.blocked[arg][0] + f"#{arg}")
+            transport.failed_indices.add(arg)
         else:
             transport.blocked[arg][1].set_result(None)
     tasks = [listener] + list(sender_tasks.values())
@@ -195,6 +217,10 @@ async def _run_schedule(case: dict, schedule: list[int]) -> tuple[Outcome | None
     for t in tasks:
         status, value = t.result()
         if status != "ok":
+            from aiomysensors.exceptions import TransportError
+
+            if status == "liberr" and isinstance(value, TransportError) and info_faults:
+                continue  # an injected write fault is reported to whoever was writing
             sig = f"leak:{env.exc_sig(value)}" if status == "leak" else f"task-raised:{type(value).__name__}"
             return fail(sig, f"schedule {trace}: {value!r}"), factors, info
     transport.gating = False
@@ -208,10 +234,12 @@ async def _run_schedule(case: dict, schedule: list[int]) -> tuple[Outcome | None
     for rec in sends:
         by_key.setdefault(rec["key"], []).append(rec)
     written: dict = {}
-    for _tick, line in transport.calls:
+    for call_idx, (_tick, line) in enumerate(transport.calls):
         parts = line.rstrip("\n").split(";", 5)
         if parts[2] != "1":
             continue
+        if transport.call_blocked_index.get(call_idx) in transport.failed_indices:
+            continue  # this write attempt failed: nothing reached the wire
         key, value = _key_of(line), parts[5]
         sent_values = [r["value"] for r in by_key.get(key, [])]
         if value not in sent_values:
@@ -224,7 +252,7 @@ async def _run_schedule(case: dict, schedule: list[int]) -> tuple[Outcome | None
             if got.count(value) > sum(1 for r in recs if r["value"] == value):
                 return fail("value-written-twice", where), factors, info
         for rec in recs:
-            if not rec["buffered"] and got.count(rec["value"]) != 1:
+            if not rec["buffered"] and got.count(rec["value"]) != 1 and not info_faults:
                 return fail("direct-send-not-written", where), factors, info
         # last-writer-wins among the sends that went through the buffer (a send with buffering
         # disabled bypasses it by request and does not cancel a parked command, also sequentially)
